@@ -273,6 +273,9 @@ SCHEMA = {
     48: ("d16 d8 alg b64", ["flags", "protocol", "algorithm", "key"]), 60: ("d16 d8 alg b64", ["flags", "protocol", "algorithm", "key"]),
     257: ("d8 tag q", ["flags", "tag", "value"]),
     47: ("n bm", ["next", "windows"]), 62: ("d32 d16 bm", ["serial", "flags", "windows"]),
+    66: ("etype escheme d16 n", ["rrtype", "scheme", "port", "target"]),
+    37: ("ectype d16 ealg b64", ["certificate_type", "key_tag", "algorithm", "certificate"]),
+    22: ("nsap", ["address"]), 67: ("b64", ["value"]), 68: ("b64", ["value"]),
     50: ("d8 d8 d16 hextok b32 bm", ["algorithm", "flags", "iterations", "salt", "next", "windows"]),
     2: ("n", ["target"]), 5: ("n", ["target"]), 12: ("n", ["target"]), 39: ("n", ["target"]), 23: ("n", ["target"]),
     15: ("d16 n", ["preference", "exchange"]), 18: ("d16 n", ["preference", "exchange"]),
@@ -313,6 +316,14 @@ def gen_field(rng, kind):
         return gen_bytes(rng, 80) or b"\0"
     if kind == "bm":
         return [] if rng.random() < 0.08 else windows_of_types({t for t in c05lib.gen_types(rng) if t})
+    if kind == "etype":
+        return rng.choice([0, 1, 2, 23, 46, 47, 48, 59, 60, 62, 255, 256, 257, 262, 263, 32768, 32769, 65535, rng.randrange(65536)])
+    if kind == "ectype":
+        return rng.choice([0, 1, 2, 3, 4, 5, 6, 7, 8, 9, 252, 253, 254, 255, 65535, rng.randrange(65536)])
+    if kind in ("escheme", "ealg"):
+        return rng.choice([0, 1, 2, 5, 8, 13, 16, 17, 252, 253, 254, 255, rng.randrange(256)])
+    if kind == "nsap":
+        return gen_bytes(rng, 24)
     if kind == "b32":
         return bytes(rng.randrange(256) for _ in range(rng.choice([1, 2, 3, 4, 5, 6, 19, 20, 20, 20, 21, 32])))
     if kind == "hextok":
@@ -563,7 +574,7 @@ def in_model(kind, case):
         text = dec(case[2])
         # names go through the IDNA codec when the text is not ASCII; the generic-syntax branch of a
         # schema type needs the wire codec (C02): neither is part of this model
-        if any(ord(c) > 127 for c in text) and ("n" in SCHEMA[case[1]][0] or "bm" in SCHEMA[case[1]][0]):
+        if any(ord(c) > 127 for c in text) and (set(SCHEMA[case[1]][0].split()) & {"n", "bm", "etype", "escheme", "ectype", "ealg", "alg"}):
             return False
         if "a6" in SCHEMA[case[1]][0] and ("\\" in text or any(ord(c) > 127 for c in text)):
             # escapes can put a line break into the address text (regular-expression corner case)
